@@ -2,28 +2,74 @@
 // oxmpl/src/base/spaces/any_state_space.rs as a contract (each method is a deterministic function of its arguments),
 // and the compound state type.  The blanket `impl<T: StateSpace> AnyStateSpace for T` (downcasts) is covered by Engine K.
 pub trait AnyStateSpace {
+    spec fn dyn_space_ok(&self) -> bool;                    // the component space's own well-formedness
     spec fn dyn_dist(&self, a: &dyn State, b: &dyn State) -> f64;
     spec fn dyn_in_bounds(&self, a: &dyn State) -> bool;
     spec fn dyn_lvsl(&self) -> f64;
     spec fn dyn_accepts(&self, a: &dyn State) -> bool;      // the state has this component space's concrete type
     fn distance_dyn(&self, state1: &dyn State, state2: &dyn State) -> (r: f64)
         requires self.dyn_accepts(state1), self.dyn_accepts(state2),          //@ any.distance_dyn.typed [C13]
-        ensures r == self.dyn_dist(state1, state2);
+        ensures r == self.dyn_dist(state1, state2);                          //@ any.distance_dyn.result [C13,C09]
     fn satisfies_bounds_dyn(&self, state: &dyn State) -> (r: bool)
         requires self.dyn_accepts(state),                                      //@ any.satisfies_bounds_dyn.typed [C13]
-        ensures r == self.dyn_in_bounds(state);
+        ensures r == self.dyn_in_bounds(state);                               //@ any.satisfies_bounds_dyn.result [C13]
     fn get_longest_valid_segment_length_dyn(&self) -> (r: f64)
-        ensures r == self.dyn_lvsl();
+        requires self.dyn_space_ok(),                                          //@ any.lvsl_dyn.space_ok [C13]
+        ensures r == self.dyn_lvsl();                                         //@ any.lvsl_dyn.result [C13]
+    spec fn dyn_sample_set(&self, a: &dyn State) -> bool;   // the states the component's sampler can return
+    fn sample_uniform_dyn(&self, rng: &mut dyn RngCore) -> (r: Result<Box<dyn State>, StateSamplingError>)
+        ensures r is Ok ==> self.dyn_sample_set(&*r.unwrap()) && self.dyn_accepts(&*r.unwrap());
     /// `out` is the component space's interpolation result / enforced version (relations, because `dyn State` is unsized)
     spec fn dyn_interp_rel(&self, from: &dyn State, to: &dyn State, t: f64, out: &dyn State) -> bool;
     spec fn dyn_enforce_rel(&self, before: &dyn State, after: &dyn State) -> bool;
     fn interpolate_dyn(&self, from: &dyn State, to: &dyn State, t: f64, state: &mut dyn State)
         requires self.dyn_accepts(from), self.dyn_accepts(to), self.dyn_accepts(old(state)),     //@ any.interpolate_dyn.typed [C13]
-        ensures self.dyn_interp_rel(from, to, t, final(state)), self.dyn_accepts(final(state));
+        ensures self.dyn_interp_rel(from, to, t, final(state)), self.dyn_accepts(final(state));     //@ any.interpolate_dyn.result [C13,C10]
     fn enforce_bounds_dyn(&self, state: &mut dyn State)
         requires self.dyn_accepts(old(state)),                                                    //@ any.enforce_bounds_dyn.typed [C13]
-        ensures self.dyn_enforce_rel(old(state), final(state)), self.dyn_accepts(final(state));
+        ensures self.dyn_enforce_rel(old(state), final(state)), self.dyn_accepts(final(state));     //@ any.enforce_bounds_dyn.result [C13,C11]
 }
 pub struct CompoundState {
     pub components: Vec<Box<dyn State>>,
 }
+
+pub struct SE2State(pub CompoundState);
+pub struct SE3State(pub CompoundState);
+impl State for CompoundState { }
+impl State for SE2State { }
+impl State for SE3State { }
+pub trait RngCore { }
+#[derive(Debug)]
+pub enum StateSpaceError { DimensionMismatch { expected: usize, found: usize }, InvalidBound { lower: f64, upper: f64 }, ZeroDimensionUnbounded, InvalidAngularDistance { lower: f64 } }
+
+// ---- std::any::Any downcasts of state objects as a spec function (TRUSTED): `dc::<S>(s)` is Some exactly when the object
+// behind `s` has concrete type S, and then it is that object
+pub uninterp spec fn dc<S>(s: &dyn State) -> Option<S>;
+/// unit rule RD1: `(x as &dyn Any).downcast_ref::<S>()`
+#[verifier::external_body]
+pub fn downcast_state_ref<'a, S: State + 'static>(s: &'a dyn State) -> (r: Option<&'a S>)
+    ensures match r { Some(x) => dc::<S>(s) == Some(*x), None => dc::<S>(s) is None },
+{ unimplemented!() }
+/// unit rule RD2: `(x as &mut dyn Any).downcast_mut::<S>().unwrap()`; the panic of `unwrap` is the precondition
+#[verifier::external_body]
+pub fn downcast_state_mut_unwrap<'a, S: State + 'static>(s: &'a mut dyn State) -> (r: &'a mut S)
+    requires dc::<S>(old(s)) is Some,                                           //@ any.downcast_mut.is_some [C13,C08]
+    ensures *r == dc::<S>(old(s)).unwrap(), dc::<S>(final(s)) == Some(*final(r)),
+{ unimplemented!() }
+/// the unsizing coercion `&CompoundState -> &dyn State` (done by the compiler in SE2/SE3 spaces) and its downcast
+pub open spec fn up_compound(c: &CompoundState) -> &dyn State { c }
+#[verifier::external_body]
+pub proof fn ax_dc_compound(c: &CompoundState)
+    ensures dc::<CompoundState>(up_compound(c)) == Some(*c),
+{ }
+/// unit rule RD3: `&mut x.0` passed where `&mut dyn State` is expected (Verus does not support the `&mut` unsizing coercion)
+#[verifier::external_body]
+pub fn compound_as_dyn_mut<'a>(s: &'a mut CompoundState) -> (r: &'a mut dyn State)
+    ensures dc::<CompoundState>(r) == Some(*old(s)), dc::<CompoundState>(final(r)) == Some(*final(s)),
+{ s }
+/// unit rule RD4: `rng` (a `&mut R`, R: Rng) passed where `&mut dyn RngCore` is expected (Verus does not support the `&mut`
+/// unsizing coercion); the generator's seed provenance is not changed by being used through the object
+#[verifier::external_body]
+pub fn rng_as_dyn<'a, R: Rng>(r: &'a mut R) -> (d: &'a mut dyn RngCore)
+    ensures final(r).det() == old(r).det(),
+{ unimplemented!() }
